@@ -158,6 +158,30 @@ def _eval_chunk(args):
                                   f"{text!r} in python_full_version={e['python_full_version']} os_name={e['os_name']!r} extra={e.get('extra')!r}: dep-logic {got}, packaging {ref}",
                                   {"text": text, "env": {k: (sorted(v) if isinstance(v, set) else v) for k, v in e.items()}, "context": ctx_name}))
                     break
+            # environments outside the specification's grid, two-way (packaging is C03's reference): an interpreter built
+            # from a development tree reports a LOCAL version (`3.9.1+`, which packaging reads as `3.9.1+local`)
+            # (literal-left ORDERING atoms are left out: `Specifier(">=3.8.0+local")` is invalid, both libraries fall back to
+            #  something - packaging to False, dep-logic to a string comparison - and no standard says what it should be)
+            if t["k"] == "atom" and t["a"]["kind"] in ("ver", "list") and t["a"]["var"] in ("python_version", "python_full_version") and variant == 0 \
+                    and not (t["a"].get("rev") and t["a"]["op"] not in ("==", "!=")):
+                for full in ("3.8.0+local", "3.9.1+cpython.1", "3.10.0+local"):
+                    e = dict(envs[0])
+                    e.pop("extras", None)
+                    e["python_full_version"] = full
+                    e["python_version"] = ".".join(full.split("+")[0].split(".")[:2])
+                    n += 1
+                    try:
+                        ref = bool(pm.evaluate(dict(e)))
+                    except Exception:  # noqa: BLE001
+                        continue
+                    try:
+                        got = bool(dm.evaluate(dict(e)))
+                    except Exception as ex:  # noqa: BLE001
+                        fails.append(("C03", f"C03:evaluate({_site(t)}):local-version:raises-{type(ex).__name__}", f"{text!r} on python_full_version {full}: {ex!r}", {"text": text, "env": e}))
+                        break
+                    if got != ref:
+                        fails.append(("C03", f"C03:evaluate({_site(t)}):local-version:differs-from-packaging", f"{text!r} on python_full_version {full}: dep-logic {got}, packaging {ref}", {"text": text, "env": {k: str(v) for k, v in e.items()}}))
+                        break
             # C11: the specifier view of python-version atoms
             if t["k"] == "atom" and t["a"]["kind"] in ("ver", "list") and t["a"]["var"] in ("python_version", "python_full_version") and variant == 0:
                 a = t["a"]
